@@ -72,6 +72,9 @@ Definition set_memid (s : state) (m : N) : state :=
 (** Running state of the replay. *)
 Record acc := { a_st : state; a_ws : list rec; a_mis : bool; a_vio : bool; a_known : N; a_next : N;
   a_broken : bool;  (* some state of the run violated the recency order of equal internal keys ([tier_inv_b]) *)
+  a_gone : list N;  (* main tables that an ingest keep-merge (IngestKeep) folded into its output: the manifest records their
+                       deletion, the level keeps listing them until it is reloaded (runCompactDef only replaces the ingest
+                       tables); their records all live on in the merged table, no read can tell *)
   a_struct : bool   (* some state had an unsorted source, overlapping main tables ([src_b] false) or a cross-tier recency inversion ([cross_b] false): never a known class *) }.
 
 Definition topt_of (l : list N) : topt :=
@@ -79,6 +82,12 @@ Definition topt_of (l : list N) : topt :=
      o_table_mult := Z.of_N (nth 3 l 0); o_memtable := Z.of_N (nth 4 l 0) |}.
 Definition zlist_eqb (a : list Z) (b : list N) : bool :=
   if list_eq_dec Z.eq_dec a (map Z.of_N b) then true else false.
+
+(** The level lists as reloaded from the manifest: without the tables it recorded as deleted. *)
+Definition drop_gone (zs : list N) (s : state) : state :=
+  {| st_mem := st_mem s; st_memid := st_memid s; st_imms := st_imms s; st_l0 := st_l0 s;
+     st_lvls := map (fun lv => {| lv_shards := lv_shards lv; lv_main := drop zs (lv_main lv) |}) (st_lvls s);
+     st_maxfid := st_maxfid s |}.
 
 Definition classify (spec model : option rec) (obs : option (bytes * N)) : N :=
   (* a violation the faithful model reproduces: 1 = an older write of the same
@@ -93,18 +102,19 @@ Definition classify (spec model : option rec) (obs : option (bytes * N)) : N :=
 Definition step (now : N) (a : acc) (o : xop) : acc :=
   let s := a_st a in
   match o with
-  | XPut r => {| a_st := put s r; a_ws := a_ws a ++ [r]; a_mis := a_mis a; a_vio := a_vio a; a_known := a_known a; a_next := a_next a; a_broken := a_broken a; a_struct := a_struct a |}
+  | XPut r => {| a_st := put s r; a_ws := a_ws a ++ [r]; a_mis := a_mis a; a_vio := a_vio a; a_known := a_known a; a_next := a_next a; a_broken := a_broken a; a_struct := a_struct a; a_gone := a_gone a |}
   | XRotate newid =>
       {| a_st := set_memid (set_maxfid (rotate s) (N.max (st_maxfid s) newid)) newid;
-         a_ws := a_ws a; a_mis := a_mis a; a_vio := a_vio a; a_known := a_known a; a_next := a_next a; a_broken := a_broken a; a_struct := a_struct a |}
-  | XFlush => {| a_st := flush s; a_ws := a_ws a; a_mis := a_mis a; a_vio := a_vio a; a_known := a_known a; a_next := a_next a; a_broken := a_broken a; a_struct := a_struct a |}
+         a_ws := a_ws a; a_mis := a_mis a; a_vio := a_vio a; a_known := a_known a; a_next := a_next a; a_broken := a_broken a; a_struct := a_struct a; a_gone := a_gone a |}
+  | XFlush => {| a_st := flush s; a_ws := a_ws a; a_mis := a_mis a; a_vio := a_vio a; a_known := a_known a; a_next := a_next a; a_broken := a_broken a; a_struct := a_struct a; a_gone := a_gone a |}
   | XCompact k lvl top bot added =>
-      {| a_st := compact s k lvl top bot added; a_ws := a_ws a; a_mis := a_mis a; a_vio := a_vio a; a_known := a_known a; a_next := a_next a; a_broken := a_broken a; a_struct := a_struct a |}
+      {| a_st := compact s k lvl top bot added; a_ws := a_ws a; a_mis := a_mis a; a_vio := a_vio a; a_known := a_known a; a_next := a_next a; a_broken := a_broken a; a_struct := a_struct a;
+         a_gone := match k with KKeep => a_gone a ++ bot | _ => a_gone a end |}
   | XReopen memid maxfid =>
-      let s' := reopen s in
+      let s' := reopen (drop_gone (a_gone a) s) in
       {| a_st := set_maxfid s' maxfid; a_ws := a_ws a;
          a_mis := a_mis a || negb (st_memid s' =? memid); a_vio := a_vio a; a_known := a_known a;
-         a_next := next_ts_after_open s'; a_broken := a_broken a; a_struct := a_struct a |}
+         a_next := next_ts_after_open s'; a_broken := a_broken a; a_struct := a_struct a; a_gone := [] |}
   | XGet k v obs =>
       let m := get s k v in
       let sp := latest_at (a_ws a) k v in
@@ -115,7 +125,7 @@ Definition step (now : N) (a : acc) (o : xop) : acc :=
       {| a_st := s; a_ws := a_ws a;
          a_mis := a_mis a || negb (obs_eqb (option_map proj m) obs);
          a_vio := a_vio a || bad;
-         a_known := if bad then (if cls =? 0 then 999 else N.max cls (a_known a)) else a_known a; a_next := a_next a; a_broken := a_broken a; a_struct := a_struct a |}
+         a_known := if bad then (if cls =? 0 then 999 else N.max cls (a_known a)) else a_known a; a_next := a_next a; a_broken := a_broken a; a_struct := a_struct a; a_gone := a_gone a |}
   | XGetPlain k obs =>
       let m := get s k max_ver in
       let sp := latest_at (a_ws a) k max_ver in
@@ -124,18 +134,18 @@ Definition step (now : N) (a : acc) (o : xop) : acc :=
       {| a_st := s; a_ws := a_ws a;
          a_mis := a_mis a || negb agree;
          a_vio := a_vio a || bad;
-         a_known := if bad then (if agree && a_broken a && negb (a_struct a) then N.max 1 (a_known a) else 999) else a_known a; a_next := a_next a; a_broken := a_broken a; a_struct := a_struct a |}
+         a_known := if bad then (if agree && a_broken a && negb (a_struct a) then N.max 1 (a_known a) else 999) else a_known a; a_next := a_next a; a_broken := a_broken a; a_struct := a_struct a; a_gone := a_gone a |}
   | XSame k v before after =>
       let bad := negb (obs_eqb before after) in
       {| a_st := s; a_ws := a_ws a; a_mis := a_mis a; a_vio := a_vio a || bad;
-         a_known := if bad then 999 else a_known a; a_next := a_next a; a_broken := a_broken a; a_struct := a_struct a |}
+         a_known := if bad then 999 else a_known a; a_next := a_next a; a_broken := a_broken a; a_struct := a_struct a; a_gone := a_gone a |}
   | XCommit r =>
       (* the commit timestamp must exceed every stored version that is not the plain-API sentinel *)
       let stale := existsb (fun w => negb (r_ver w =? max_ver) && (r_ver r <=? r_ver w)) (a_ws a) in
       {| a_st := put s r; a_ws := a_ws a ++ [r];
          a_mis := a_mis a || negb (r_ver r =? a_next a);
          a_vio := a_vio a || stale;
-         a_known := if stale then 999 else a_known a; a_next := r_ver r + 1; a_broken := a_broken a; a_struct := a_struct a |}
+         a_known := if stale then 999 else a_known a; a_next := r_ver r + 1; a_broken := a_broken a; a_struct := a_struct a; a_gone := a_gone a |}
   | XTargets sizes opts base target file =>
       let zs := map Z.of_N sizes in
       let t := build_targets zs (topt_of opts) in
@@ -143,7 +153,7 @@ Definition step (now : N) (a : acc) (o : xop) : acc :=
       (* specification: an L0 move to the base level must not pass a level that holds data *)
       let bad := negb (base_above_data zs (N.to_nat base)) in
       {| a_st := s; a_ws := a_ws a; a_mis := a_mis a || negb agree; a_vio := a_vio a || bad;
-         a_known := if bad then 999 else a_known a; a_next := a_next a; a_broken := a_broken a; a_struct := a_struct a |}
+         a_known := if bad then 999 else a_known a; a_next := a_next a; a_broken := a_broken a; a_struct := a_struct a; a_gone := a_gone a |}
   | XLayout imms l0 lvls =>
       let ok := nlist_eqb (map fst (st_imms s)) imms && nlist_eqb (fids (st_l0 s)) l0 &&
                 (Nat.eqb (List.length (st_lvls s)) (List.length lvls)) &&
@@ -151,7 +161,7 @@ Definition step (now : N) (a : acc) (o : xop) : acc :=
       let s' := {| st_mem := st_mem s; st_memid := st_memid s; st_imms := st_imms s; st_l0 := st_l0 s;
                    st_lvls := map (fun p => adopt (fst p) (snd p)) (combine (st_lvls s) lvls);
                    st_maxfid := st_maxfid s |} in
-      {| a_st := if ok then s' else s; a_ws := a_ws a; a_mis := a_mis a || negb ok; a_vio := a_vio a; a_known := a_known a; a_next := a_next a; a_broken := a_broken a; a_struct := a_struct a |}
+      {| a_st := if ok then s' else s; a_ws := a_ws a; a_mis := a_mis a || negb ok; a_vio := a_vio a; a_known := a_known a; a_next := a_next a; a_broken := a_broken a; a_struct := a_struct a; a_gone := a_gone a |}
   end.
 
 Definition changes_state (o : xop) : bool :=
@@ -173,12 +183,12 @@ Definition step' (now : N) (a : acc) (o : xop) : acc :=
     let ok := tier_inv_b (a_st a') in
     let sok := src_b (a_st a') && cross_b (tiers_of (a_st a')) in
     {| a_st := a_st a'; a_ws := a_ws a'; a_mis := a_mis a'; a_vio := a_vio a'; a_known := a_known a';
-       a_next := a_next a'; a_broken := a_broken a' || negb ok; a_struct := a_struct a' || negb sok |}
+       a_next := a_next a'; a_broken := a_broken a' || negb ok; a_struct := a_struct a' || negb sok; a_gone := a_gone a' |}
   else a'.
 
 Definition replay (c : case) : acc :=
   fold_left (step' (c_now c)) (c_ops c)
-            {| a_st := init (c_memid c); a_ws := []; a_mis := false; a_vio := false; a_known := 0; a_next := 1; a_broken := false; a_struct := false |}.
+            {| a_st := init (c_memid c); a_ws := []; a_mis := false; a_vio := false; a_known := 0; a_next := 1; a_broken := false; a_struct := false; a_gone := [] |}.
 
 (** [a_known = 999] marks a violation outside every known class. *)
 Definition check (c : case) : verdict :=
